@@ -183,7 +183,7 @@ pub fn sites(tier: Tier) -> Vec<Site> {
         for (ti, t) in tfs.iter().enumerate() {
             for (fam, s) in textgen::strings(t.width) {
                 // (texts holding a character of no code page are lossy by design: C10's business)
-                if s.contains('\0') || s.contains('^') || fam.starts_with("no-page-lead") { continue; }
+                if s.contains('\0') || s.contains('^') || fam.starts_with("no-page") { continue; }
                 let enc = if t.raw { s.as_bytes().len() } else { codepages::to_lossy_bytes(&s).len() };
                 // MST / MSX / MSL are C strings for LFS: the last byte of the field is the terminator
                 let must_terminate = matches!(t.kind, "MST" | "MSX" | "MSL");
